@@ -295,6 +295,7 @@ class Engine:
         self.deadline = time.time() + timeout_s
         self.max_paths = 20000
         self.query_log = []
+        self.steps = 0
 
     # ---- solver
     def check(self, conds):
@@ -873,6 +874,7 @@ class Engine:
                 st.status, st.msg = "bound", "loop bound %d exceeded at %s bb%d" % (self.loop_bound, fr.fn.name, fr.bb)
                 return [st]
             stmts, term = fr.fn.blocks[fr.bb]
+            self.steps += 1
             for s in stmts:
                 self.statement(st, fr, s)
             res = self.terminator(st, fr, term)
@@ -1225,6 +1227,7 @@ def _step_with_loops(self, st):
             st.status, st.msg = "bound", "loop bound %d exceeded at %s bb%d" % (self.loop_bound, fr.fn.name, fr.bb)
             return [st]
         stmts, term = fr.fn.blocks[fr.bb]
+        self.steps += 1
         for s in stmts:
             self.statement(st, fr, s)
         res = self.terminator(st, fr, term)
